@@ -196,7 +196,9 @@ func Iif[T any](predicate func() bool, source1, source2 Observable[T]) func() Ob
 // DefaultIfEmpty emits a default value if the source observable emits no items.
 // Play: https://go.dev/play/p/WDh807OLPWv
 func DefaultIfEmpty[T any](defaultValue T) func(Observable[T]) Observable[T] {
-	return DefaultIfEmptyWithContext(context.Background(), defaultValue)
+	// nil: the default value travels with the context of the completion
+	// notification, like any other value derived from the stream.
+	return DefaultIfEmptyWithContext(nil, defaultValue) //nolint:staticcheck
 }
 
 // DefaultIfEmptyWithContext emits a default value if the source observable emits no items.
@@ -216,7 +218,11 @@ func DefaultIfEmptyWithContext[T any](defaultCtx context.Context, defaultValue T
 					destination.ErrorWithContext,
 					func(ctx context.Context) {
 						if empty {
-							destination.NextWithContext(defaultCtx, defaultValue)
+							if defaultCtx == nil {
+								destination.NextWithContext(ctx, defaultValue)
+							} else {
+								destination.NextWithContext(defaultCtx, defaultValue)
+							}
 						}
 
 						destination.CompleteWithContext(ctx)
